@@ -83,7 +83,7 @@ const c19Opts = ""
 // Producers publish, then the writer is closed. After Close returns every accepted event has been handed
 // to the broker exactly once, in each producer's order, in batches of 1..100, with the environment id as key.
 //verif:entry HarnessPublishThenClose unwind=10 preempt=2 reach=closed replace=google.golang.org/protobuf/proto.Marshal=>C19Marshal stub=(*github.com/segmentio/kafka-go.Writer).Close
-//verif:thorough HarnessPublishThenClose preempt=3
+//verif:thorough HarnessPublishThenClose preempt=3 unwind=32
 func HarnessPublishThenClose() {
 	b := &c19Broker{}
 	w := c19Writer(b)
